@@ -128,6 +128,52 @@ func payBytesSX(e error) SX {
 	return L(out...)
 }
 
+// fullBytesSX: the protobuf bytes of the whole EncodedError, payloads included, when every visible
+// layer's payload is absent or one of the library's flat payload messages; (skip) otherwise (a
+// nested EncodedError, a gRPC status, a foreign message).
+func fullBytesSX(e error) SX {
+	enc := errors.EncodeError(bgCtx, e)
+	known := []string{"cockroach.errorspb.StringPayload", "cockroach.errorspb.StringsPayload", "cockroach.errorspb.ErrnoPayload",
+		"cockroach.errorspb.MarkPayload", "cockroach.errorspb.TagsPayload", "cockroach.errorspb.TestError",
+		"cockroach.errors.exthttp.EncodedHTTPCode", "cockroach.errors.extgrpc.EncodedGrpcCode"}
+	flat := true
+	chk := func(d *errorspb.EncodedErrorDetails) {
+		if d.FullDetails == nil {
+			return
+		}
+		ok := false
+		for _, k := range known {
+			if d.FullDetails.TypeUrl == "type.googleapis.com/"+k {
+				ok = true
+			}
+		}
+		if !ok {
+			flat = false
+		}
+	}
+	var walk func(x *errorspb.EncodedError)
+	walk = func(x *errorspb.EncodedError) {
+		if l := x.GetLeaf(); l != nil {
+			chk(&l.Details)
+			for i := range l.MultierrorCauses {
+				walk(l.MultierrorCauses[i])
+			}
+		} else if w := x.GetWrapper(); w != nil {
+			chk(&w.Details)
+			walk(&w.Cause)
+		}
+	}
+	walk(&enc)
+	if !flat {
+		return L(Sym("skip"))
+	}
+	b, err := enc.Marshal()
+	if err != nil {
+		return Sym("marshal-error")
+	}
+	return Str(string(b))
+}
+
 func isSX(e error, refs []error) SX {
 	out := make([]SX, len(refs))
 	for i, r := range refs {
@@ -258,6 +304,7 @@ func obsCase(e error, refs []error) SX {
 		L(Sym("detbytes"), optSX(func() SX { return detBytesSX(e) })),
 		L(Sym("wirebytes"), optSX(func() SX { return wireBytesSX(e) })),
 		L(Sym("paybytes"), optSX(func() SX { return payBytesSX(e) })),
+		L(Sym("fullbytes"), optSX(func() SX { return fullBytesSX(e) })),
 		L(Sym("h1tree"), onHop(h1, ok1, treeSX)),
 		L(Sym("h1enc"), onHop(h1, ok1, encSX)),
 		L(Sym("h2enc"), onHop(h2, ok2, encSX)),
